@@ -4,6 +4,9 @@ import (
 	"context"
 	"encoding/json"
 	"fmt"
+	"io/ioutil"
+	"os"
+	"path/filepath"
 	"sort"
 	"strings"
 	"sync"
@@ -34,6 +37,66 @@ type c17Op struct {
 type c17Case struct {
 	Initial []string `json:"initial"`
 	Ops     []c17Op  `json:"ops"`
+	// Via: how the configuration reaches the ConfigManager: "" (raw content, as pushed through the API) | "file"
+	// (regular file rewritten, ReloadFromFile) | "symlink" (the layout of a kubernetes ConfigMap volume:
+	// prometheus.yml -> ..data/prometheus.yml, ..data -> ..<timestamp>, the ..data link is exchanged) | "samestat"
+	// (regular file replaced by content of the same size with the modification time preserved, as cp -p / rsync -t do)
+	Via string `json:"via,omitempty"`
+}
+
+// c17Loader delivers configuration texts to a ConfigManager the way c.Via says.
+type c17Loader struct {
+	via  string
+	dir  string
+	gen  int
+	cm   *prom.ConfigManager
+	when time.Time
+}
+
+func (l *c17Loader) load(text string) error {
+	l.gen++
+	path := filepath.Join(l.dir, "prometheus.yml")
+	switch l.via {
+	case "file":
+		if err := ioutil.WriteFile(path, []byte(text), 0644); err != nil {
+			return err
+		}
+	case "samestat":
+		const size = 16 << 10
+		if len(text)+3 < size {
+			text += "\n# " + strings.Repeat("-", size-len(text)-3)
+		}
+		if err := ioutil.WriteFile(path, []byte(text), 0644); err != nil {
+			return err
+		}
+		if err := os.Chtimes(path, l.when, l.when); err != nil {
+			return err
+		}
+	case "symlink":
+		real := fmt.Sprintf("..2026_09_28_%06d", l.gen)
+		if err := os.Mkdir(filepath.Join(l.dir, real), 0755); err != nil {
+			return err
+		}
+		if err := ioutil.WriteFile(filepath.Join(l.dir, real, "prometheus.yml"), []byte(text), 0644); err != nil {
+			return err
+		}
+		tmp := filepath.Join(l.dir, "..data_tmp")
+		_ = os.Remove(tmp)
+		if err := os.Symlink(real, tmp); err != nil {
+			return err
+		}
+		if err := os.Rename(tmp, filepath.Join(l.dir, "..data")); err != nil {
+			return err
+		}
+		if l.gen == 1 {
+			if err := os.Symlink("..data/prometheus.yml", path); err != nil {
+				return err
+			}
+		}
+	default:
+		return l.cm.ReloadFromRaw([]byte(text))
+	}
+	return l.cm.ReloadFromFile(path)
 }
 
 var c17JobPool = map[string]*jobSpec{
@@ -69,7 +132,7 @@ func c17Config(jobs []string) string {
 func baseName(n string) string { return strings.SplitN(n, "#", 2)[0] }
 
 func recC17() *vkit.Recorder {
-	r := vkit.Rec("C17", "exploration", "rapid operation sequences over the real TargetsDiscovery (fed through Run's channel) and the real Explore wired as cmd/kvass/coordinator.go wires them: update (full map over the configured jobs or a partial first round), reload (adds / removes / keeps jobs), read; a concurrent reader polls ActiveTargets throughout; model = per configured job the target set of its latest update as translated by the vendored Prometheus library; after every step active and dropped sets, the explorer's table and all earlier snapshots are compared with the model; non-trivial = sequence with a reload that keeps >=1 populated job and removes or adds another, followed by an update; distinct = digest of the sequence")
+	r := vkit.Rec("C17", "exploration", "rapid operation sequences over the real TargetsDiscovery (fed through Run's channel) and the real Explore wired as cmd/kvass/coordinator.go wires them: update (full map over the configured jobs or a partial first round), reload (adds / removes / keeps jobs; the configuration arrives as raw content, as a rewritten file, through the exchanged symlink of a ConfigMap-style volume, or as a file replaced by content of equal size and preserved modification time), read; a concurrent reader polls ActiveTargets throughout; model = per configured job the target set of its latest update as translated by the vendored Prometheus library; after every step active and dropped sets, the explorer's table and all earlier snapshots are compared with the model; non-trivial = sequence with a reload that keeps >=1 populated job and removes or adds another, followed by an update; distinct = digest of the sequence")
 	r.Assume("discovery updates for a job are complete target-group lists (as the Prometheus discovery manager emits them); the 'never even momentarily' clause depends on a thread interleaving the harness does not own: the polling reader gives probabilistic coverage of it")
 	return r
 }
@@ -179,7 +242,12 @@ func runC17(rec *vkit.Recorder, c *c17Case) []vkit.Violation {
 			}
 		}
 	}()
-	if err := cm.ReloadFromRaw([]byte(c17Config(c.Initial))); err != nil {
+	ld := &c17Loader{via: c.Via, cm: cm, when: time.Unix(1700000000, 0)}
+	if c.Via != "" {
+		ld.dir, _ = ioutil.TempDir("", "c17-")
+		defer os.RemoveAll(ld.dir)
+	}
+	if err := ld.load(c17Config(c.Initial)); err != nil {
 		add("C17/harness", "initial config: %v", err)
 		return vs
 	}
@@ -392,7 +460,7 @@ func runC17(rec *vkit.Recorder, c *c17Case) []vkit.Violation {
 			if len(keep) > 0 && changed {
 				flagReloadKeep = true
 			}
-			if err := cm.ReloadFromRaw([]byte(c17Config(op.Jobs))); err != nil {
+			if err := ld.load(c17Config(op.Jobs)); err != nil {
 				add("C17/reload-fails", "step %d: %v", i, err)
 			}
 			configured = nc
@@ -433,6 +501,9 @@ func runC17(rec *vkit.Recorder, c *c17Case) []vkit.Violation {
 	var cls []string
 	if flagReloadKeep {
 		cls = append(cls, "reload-keeping-populated-job")
+		if c.Via != "" {
+			cls = append(cls, "reload-via-"+c.Via)
+		}
 	}
 	rec.Eval(nt, vkit.Digest(string(b)), cls...)
 	rec.ClassN("reader-polls", int(atomic.LoadInt64(&polls)))
@@ -458,6 +529,7 @@ func genC17(t *rapid.T) *c17Case {
 		return out
 	}
 	c := &c17Case{Initial: subset("init")}
+	c.Via = []string{"", "file", "symlink", "samestat"}[pick(t, "via", 40, 15, 30, 15)]
 	cur := c.Initial
 	n := rapid.IntRange(1, 12).Draw(t, "nOps")
 	for i := 0; i < n; i++ {
